@@ -447,6 +447,8 @@ type judge struct {
 	calls   int
 	openErr error
 	follow  []string // the drawn follow-up script of the case
+	// tocFirst: Open left a body-level bookmark start directly in front of a styled paragraph (bookmarks.go: labelBookmarks)
+	tocFirst bool
 	tedits  []TEdit  // the drawn script of table edits of the case
 }
 
@@ -544,6 +546,11 @@ func judgeOpen(res *kit.Result, b []byte, via string, follow []string, tedits []
 		res.Label("twin:second-document-after-the-first")
 		j.followUp(doc2)
 	}
+	if j.tocFirst && j.panics == 0 && len(b) <= maxTwinBytes {
+		// the follow-up reaches the table of contents after its other edits (they append to the body: a heading that was the last
+		// element is not the last one any more). Here it is the FIRST edit, on a document of its own from the same bytes.
+		j.tocAsFirstEdit(b)
+	}
 	return in
 }
 
@@ -576,6 +583,7 @@ func (j *judge) followUp(doc *document.Document) {
 	if len(tables) > 0 {
 		res.Label("opened-tables")
 	}
+	j.labelBookmarks(doc) // body-level bookmarks next to headings, as Open read them (bookmarks.go)
 	for _, e := range doc.Body.Elements {
 		if _, ok := e.(*document.MathParagraph); ok {
 			res.Label("opened-formula-paragraph") // the reader kept the inside of a formula as the text of the input
@@ -611,6 +619,9 @@ func (j *judge) followUp(doc *document.Document) {
 		}
 		if t != nil && t.Grid == nil {
 			res.Label("opened-table-without-grid")
+		}
+		if t != nil && t.Grid != nil && len(t.Grid.Cols) == 0 && len(t.Rows) > 0 && len(t.Rows[0].Cells) > 0 {
+			res.Label("opened-table-empty-grid-above-cells")
 		}
 		if t != nil && len(t.Rows) == 0 {
 			res.Label("opened-rowless-table")
@@ -750,6 +761,8 @@ func (j *judge) followUp(doc *document.Document) {
 		ed("InsertColumn", func() error { return t.InsertColumn(0, nil, 1000) })
 		ed("DeleteColumn", func() error { return t.DeleteColumn(0) })
 		ed("AppendColumn", func() error { return t.AppendColumn([]string{"v"}, 1000) })
+		ed("InsertColumn (no width)", func() error { return t.InsertColumn(0, nil, 0) })
+		ed("AppendColumn (no width)", func() error { return t.AppendColumn(nil, 0) })
 		if !ok {
 			res.Count("tainted_tables", 1)
 		}
@@ -806,6 +819,14 @@ func (j *judge) followUp(doc *document.Document) {
 	j.call(E, "AddMathFormula", "", func() { doc.AddMathFormula("<m:r><m:t>x</m:t></m:r>", len(tables)%2 == 0) })
 	// rebuilds an opened table-of-contents content control (uses what Open restored from its tag / field instruction)
 	j.call(E, "UpdateTOC", "", func() { doc.UpdateTOC() })
+	// the other ways to a table of contents: built from the headings and the bookmarks next to them as Open read them (the
+	// appended elements above all sit behind them); a second run finds what the first one left
+	j.call(E, "AutoGenerateTOC(nil)", "", func() { doc.AutoGenerateTOC(nil) })
+	j.call(E, "AutoGenerateTOC(levels 1-9, second run)", "", func() {
+		doc.AutoGenerateTOC(&document.TOCConfig{Title: "Contents", MaxLevel: 9, ShowPageNum: true, UseHyperlink: true})
+	})
+	j.call(E, "GenerateTOC(nil)", "", func() { doc.GenerateTOC(nil) })
+	j.call(E, "UpdateTOC after GenerateTOC", "", func() { doc.UpdateTOC() })
 	j.call(E, "RemoveParagraphAt", "", func() { doc.RemoveParagraphAt(0) })
 	j.call(E, "RemoveElementAt", "", func() {
 		if doc.Body != nil {
